@@ -21,14 +21,14 @@ type Iv struct{ Lo, Hi int64 }
 // the empty set.
 type ISet []Iv
 
-func isTop() ISet                { return ISet{{negInf, posInf}} }
-func isRange(lo, hi int64) ISet  { return ISet{{lo, hi}} }
-func isConst(c int64) ISet       { return ISet{{c, c}} }
-func isEmpty() ISet              { return ISet{} }
-func (s ISet) Empty() bool       { return len(s) == 0 }
-func (s ISet) IsTop() bool       { return len(s) == 1 && s[0].Lo == negInf && s[0].Hi == posInf }
-func (s ISet) Lo() int64         { return s[0].Lo }
-func (s ISet) Hi() int64         { return s[len(s)-1].Hi }
+func isTop() ISet               { return ISet{{negInf, posInf}} }
+func isRange(lo, hi int64) ISet { return ISet{{lo, hi}} }
+func isConst(c int64) ISet      { return ISet{{c, c}} }
+func isEmpty() ISet             { return ISet{} }
+func (s ISet) Empty() bool      { return len(s) == 0 }
+func (s ISet) IsTop() bool      { return len(s) == 1 && s[0].Lo == negInf && s[0].Hi == posInf }
+func (s ISet) Lo() int64        { return s[0].Lo }
+func (s ISet) Hi() int64        { return s[len(s)-1].Hi }
 func (s ISet) IsConst() (int64, bool) {
 	if len(s) == 1 && s[0].Lo == s[0].Hi {
 		return s[0].Lo, true
